@@ -288,6 +288,10 @@ func (runInfo *runInfoStruct) invokeAddrExpr(expr *ast.AddrExpr) {
 		return
 	}
 
+	if runInfo.rv.Kind() == reflect.Interface && runInfo.rv.IsNil() && runInfo.rv.CanAddr() {
+		// the shared nil value must not be handed out
+		runInfo.rv = reflect.Zero(runInfo.rv.Type())
+	}
 	if runInfo.rv.CanAddr() {
 		runInfo.rv = runInfo.rv.Addr()
 	} else {
@@ -881,7 +885,7 @@ func (runInfo *runInfoStruct) invokeIncludeExpr(expr *ast.IncludeExpr) {
 	if runInfo.err != nil {
 		return
 	}
-	itemExpr := runInfo.rv
+	itemExpr := detach(runInfo.rv)
 
 	runInfo.expr = expr.ListExpr
 	runInfo.invokeExpr()
